@@ -181,6 +181,9 @@ def gen_scenarios(plan_items, seed, out, scale=1.0):
             if fam == "tlcevlag":    # ... the event-path model with a lagging reader
                 k = dict(kv.split("=") for kv in params.split(",") if kv).get("k", "3")
                 args = [sys.executable, os.path.join(HERE, "gen", "tlcgen.py"), "--model", "evlag", "--steps", k, "--sample", str(n), "--seed", str(seed * 131 + idx)]
+            if fam in ("tlcevheld", "tlcevheldlag"):   # ... the event-path model with a descriptor held on the watched file
+                k = dict(kv.split("=") for kv in params.split(",") if kv).get("k", "4")
+                args = [sys.executable, os.path.join(HERE, "gen", "tlcgen.py"), "--model", fam[3:], "--steps", k, "--sample", str(n), "--seed", str(seed * 131 + idx)]
             if fam == "tlcev":       # ... from the event-path model
                 k = dict(kv.split("=") for kv in params.split(",") if kv).get("k", "3")
                 args = [sys.executable, os.path.join(HERE, "gen", "tlcgen.py"), "--model", "ev", "--steps", k, "--sample", str(n), "--seed", str(seed * 131 + idx)]
